@@ -38,6 +38,8 @@ type c12Case struct {
 	// function) instead of WalkDepth with the harness's visit function; what it
 	// visited is read off the fetches the DAG service saw
 	FetchGraph bool `json:"fetch_graph,omitempty"`
+	// ProviderFail: nodes for which the provider's StartProviding returns an error
+	ProviderFail []int `json:"provider_fail,omitempty"`
 }
 
 func c12Gen(t *rapid.T, tier string) any {
@@ -65,6 +67,9 @@ func c12Gen(t *rapid.T, tier string) any {
 	c.DepthLimit = rapid.SampledFrom([]int{-2, -2, -1, 0, 1, 2, 3, 6}).Draw(t, "depth")
 	c.Handlers = rapid.SliceOfN(rapid.SampledFrom([]string{"ignoreerrors", "ignoremissing", "onmissing", "onerror-pass", "onerror-swallow", "onerror-replace"}), 0, 3).Draw(t, "handlers")
 	c.Provider = rapid.Bool().Draw(t, "provider")
+	if c.Provider && rapid.IntRange(0, 2).Draw(t, "provfail") == 0 {
+		c.ProviderFail = rapid.SliceOfNDistinct(rapid.IntRange(0, n-1), 1, 3, func(i int) int { return i }).Draw(t, "provfailnodes")
+	}
 	c.DirectLinks = rapid.Bool().Draw(t, "direct")
 	if c.DepthLimit >= -1 {
 		c.FetchGraph = rapid.Bool().Draw(t, "fetchgraph")
@@ -73,13 +78,27 @@ func c12Gen(t *rapid.T, tier string) any {
 	return c
 }
 
-type c12Provider struct{ got []string }
+type c12Provider struct {
+	got  []string
+	fail map[string]bool
+	s    *verifsim.Sim
+}
 
+var errC12Provider = errors.New("c12: injected provider error")
+
+// StartProviding records the request; for the multihashes of the fault plan it then
+// fails. The walk only logs provider errors: they must not change what it visits
+// or returns.
 func (p *c12Provider) StartProviding(force bool, hs ...mh.Multihash) error {
+	var err error
 	for _, h := range hs {
 		p.got = append(p.got, string(h))
+		if p.fail[string(h)] {
+			p.s.Fault("provider-error")
+			err = errC12Provider
+		}
 	}
-	return nil
+	return err
 }
 func (p *c12Provider) StopProviding(...mh.Multihash) error   { return nil }
 func (p *c12Provider) ProvideOnce(...mh.Multihash) error     { return nil }
@@ -169,7 +188,12 @@ func c12Run(t *testing.T, ci any, trace bool) *verifsim.Result {
 				}))
 			}
 		}
-		prov := &c12Provider{}
+		prov := &c12Provider{s: s, fail: map[string]bool{}}
+		for _, i := range c.ProviderFail {
+			if i < n {
+				prov.fail[string(cids[i].Hash())] = true
+			}
+		}
 		if c.Provider {
 			opts = append(opts, WithProvider(prov))
 		}
